@@ -335,3 +335,99 @@ def _replay_mpc(model, ob):
     leak = (dict(pp.provide_cache), dict(pp.provide_references), set(pp.all_reference_ids)) != before
     return {"confirmed": (not ok) or leak, "function": "Template.render of a page-level provider with two sibling consumers",
             "inputs": {"template": src}, "expected": "<i>1</i><i>1</i> and registries as before", "observed": observed, "registries_changed": leak}
+
+
+# ------------------------------------------------------------------------------------------- replay on the real code
+def _provide_battery(model, ob):
+    """small registry states (2 providers, 3 reference ids, every assignment of reference sets) driven through the real
+    functions, against the set semantics of the contracts: unregister removes the id everywhere and deletes exactly the
+    providers left without references; register adds the id to every visible provider; a provider body that raises
+    leaves no reference registered in it behind; an active provider's data stays until its body ends"""
+    import itertools
+    from django.conf import settings
+    if not settings.configured:
+        from tests.django_test_setup import setup_test_config
+        setup_test_config({"autodiscover": False})
+    from django.template import Context
+    import django_components.perfutil.provide as pv
+    saved = (dict(pv.provide_cache), {k: set(v) for k, v in pv.provide_references.items()}, set(pv.all_reference_ids))
+
+    def load(cache, refs, allr):
+        pv.provide_cache.clear(); pv.provide_cache.update(cache)
+        pv.provide_references.clear(); pv.provide_references.update({k: set(v) for k, v in refs.items()})
+        pv.all_reference_ids.clear(); pv.all_reference_ids.update(allr)
+
+    def snap():
+        return (dict(pv.provide_cache), {k: set(v) for k, v in pv.provide_references.items()}, set(pv.all_reference_ids))
+    try:
+        rs = ["r1", "r2", "r3"]
+        subsets = [set(c) for n in range(1, 4) for c in itertools.combinations(rs, n)]
+        # unregister
+        for s1, s2 in itertools.product(subsets, repeat=2):
+            for gone in rs:
+                load({"p1": "d1", "p2": "d2"}, {"p1": s1, "p2": s2}, s1 | s2)
+                pv.unregister_provide_reference(gone)
+                want_refs = {p: s - {gone} for p, s in (("p1", s1), ("p2", s2)) if (s - {gone}) or gone not in (s1 | s2)}
+                if gone not in (s1 | s2):
+                    want_refs = {"p1": s1, "p2": s2}
+                want = ({p: d for p, d in (("p1", "d1"), ("p2", "d2")) if p in want_refs}, want_refs, (s1 | s2) - {gone})
+                if snap() != want:
+                    return {"confirmed": True, "function": "unregister_provide_reference", "inputs": {"provide_references": {"p1": sorted(s1), "p2": sorted(s2)}, "reference_id": gone},
+                            "expected": repr(want), "observed": repr(snap())}
+        # register
+        for visible in ([], ["p1"], ["p1", "p2"]):
+            for cache in ({}, {"p1": "d1", "p2": "d2"}):
+                load(cache, {p: {p} for p in cache}, set())
+                ctx = Context({"_DJC_INJECT__k%d" % i: p for i, p in enumerate(visible)})
+                ctx.update({"other": 1})
+                pv.register_provide_reference(ctx, "r9")
+                if not cache:
+                    want = ({}, {}, set())
+                else:
+                    want = (cache, {p: ({p, "r9"} if p in visible else {p}) for p in cache}, {"r9"})
+                if snap() != want:
+                    return {"confirmed": True, "function": "register_provide_reference", "inputs": {"visible providers": visible, "provide_cache": cache},
+                            "expected": repr(want), "observed": repr(snap())}
+        # managed_provide_cache: body registers consumers, finishes or raises
+        for fail in (False, True):
+            for consumers in ([], ["c1"], ["c1", "c2"]):
+                load({}, {}, set())
+                try:
+                    with pv.managed_provide_cache("p1"):
+                        pv.provide_cache["p1"] = "d1"
+                        ctx = Context({"_DJC_INJECT__k": "p1"})
+                        for cns in consumers:
+                            pv.register_provide_reference(ctx, cns)
+                        if "p1" not in pv.provide_cache:
+                            return {"confirmed": True, "function": "managed_provide_cache", "inputs": {"consumers": consumers}, "expected": "provider data present while its body runs", "observed": repr(snap())}
+                        if consumers and not fail:
+                            pv.unregister_provide_reference(consumers[0])
+                            if "p1" not in pv.provide_cache:
+                                return {"confirmed": True, "function": "managed_provide_cache", "inputs": {"consumers": consumers, "event": "first consumer finished"},
+                                        "expected": "an ACTIVE provider keeps its data", "observed": repr(snap())}
+                        if fail:
+                            raise KeyError("boom")
+                except KeyError:
+                    pass
+                left = consumers[1:] if not fail else []
+                want = ({"p1": "d1"}, {"p1": set(left)}, set(left)) if left else ({}, {}, set())
+                if snap() != want:
+                    return {"confirmed": True, "function": "managed_provide_cache", "inputs": {"consumers": consumers, "body": "raises" if fail else "returns"},
+                            "expected": repr(want), "observed": repr(snap())}
+    finally:
+        load(*saved)
+    return {"confirmed": False}
+
+
+for _fn in ("register_provide_reference", "unregister_provide_reference"):
+    REG.replays[f"{PMOD}:{_fn}"] = _provide_battery
+
+
+def _mpc_both(model, ob):
+    r = _provide_battery(model, ob)
+    return r if r.get("confirmed") else _replay_mpc(model, ob)
+
+
+REG.replays[f"{PMOD}:managed_provide_cache"] = _mpc_both
+
+import contracts.c03  # noqa: E402,F401  (make_isolated_context_copy passes the inject keys through: shared with C03)
